@@ -6,6 +6,7 @@
 pub mod account_world;
 pub mod crash_world;
 pub mod eventlog_world;
+pub mod server_world;
 pub mod summary;
 pub mod sync_world;
 pub mod term;
